@@ -96,6 +96,9 @@ def label(rng, n, mode):
     if mode == 'unsorted':
         ids = rng.sample(range(1, 12 * n + 10), n)
         return ids
+    if mode == 'huge':         # just below 2**53: ids that do not survive a trip through binary32/int32
+        base = 2 ** 53 - 10 ** 6 + rng.randrange(10 ** 5)
+        return rng.sample(range(base, base + 5 * n + 10), n)
     if mode == 'large':
         base = 2 ** 31 + rng.randrange(10 ** 6)
         ids = rng.sample(range(base, base + 5 * n + 10), n)
@@ -147,6 +150,11 @@ def finalize(rng, pts, elems, opts):
         coords.append([rng.randrange(-5, 6) for _ in range(3)])
     nid = label(rng, n + n_extra, opts['node_ids'])
     order = list(range(n + n_extra))
+    # unreferenced nodes stored last (default), first or in the middle
+    place = opts.get('extra_place', 'last')
+    if n_extra and place != 'last':
+        ex = order[n:]
+        order = ex + order[:n] if place == 'first' else order[:n // 2] + ex + order[n // 2:n]
     if opts.get('shuffle_nodes') and opts['node_ids'] not in PATTERN_MODES:
         rng.shuffle(order)
     node_ids = [nid[i] for i in order]
@@ -352,4 +360,5 @@ def random_opts(rng, jitter_ok=True):
         'shuffle_nodes': rng.random() < 0.6,
         'shuffle_elems': rng.random() < 0.5,
         'extra_nodes': rng.choice([0, 0, 1, 3]),
+        'extra_place': rng.choice(['last', 'first', 'middle']),
     }
